@@ -88,7 +88,11 @@ def r2(ctx: Ctx) -> None:
         ctx.site(fi.where, "popped rectangle is consumed (split or kept) on every path of the iteration", stmt=norm_stmt(st))
         tgt = st.targets[0] if isinstance(st, ast.Assign) else (st.target if isinstance(st, ast.AnnAssign) else None)
         if not isinstance(tgt, ast.Name):
-            ctx.report(fi.where, f"pop-unbound {norm_stmt(st)}", "a rectangle is popped and not bound", lineno=st.lineno)
+            # consumed on the spot: the pop is an operand of a split() / sink call of the same statement
+            on_the_spot = any(isinstance(c2, ast.Call) and c2 is not c and (call_name(c2) in SINKS or call_name(c2) == "split")
+                              and any(y is c for y in ast.walk(c2)) for c2 in ast.walk(st))
+            if not on_the_spot:
+                ctx.report(fi.where, f"pop-unbound {norm_stmt(st)}", "a rectangle is popped and not bound", lineno=st.lineno)
             continue
         name = tgt.id
 
